@@ -223,6 +223,12 @@ func genCase(rng *rand.Rand, id int, domain bool, small bool) hx.Case {
 			tags["foreign-wrapping-gerror-midway"] = true
 		}
 		cur := rng.Intn(np)
+		if len(sh.vkind) > np && rng.Intn(2) == 0 {
+			// branch off an EARLIER derived value: siblings of intermediate errors share whatever the
+			// parent's slices and references share
+			cur = rng.Intn(len(sh.vkind))
+			tags["branch-from-derived"] = true
+		}
 		L := rng.Intn(7)
 		if L > budget {
 			L = budget
@@ -258,6 +264,22 @@ func genCase(rng *rand.Rand, id int, domain bool, small bool) hx.Case {
 				longChain = true
 			}
 		}
+	}
+	if domain && !small && rng.Intn(3) == 0 {
+		// a ladder of Converts (every length up to 6) with two or three sibling Converts of different
+		// foreign errors at each rung: what one sibling records must not change what another recorded
+		cur := rng.Intn(np)
+		for d := 0; d < 6; d++ {
+			parent := cur
+			for k, K := 0, 2+rng.Intn(2); k < K; k++ {
+				add(fmt.Sprintf("gei call %d %s f%d %d", parent, methods[17+rng.Intn(2)], rng.Intn(len(sh.fkind)), rng.Intn(4096)))
+				if k == 0 {
+					cur = len(sh.vkind) - 1
+				}
+			}
+		}
+		convForeign, longChain = true, true
+		tags["convert-ladder"] = true
 	}
 	if !domain && rng.Intn(2) == 0 && len(sh.fkind) > 0 {
 		add(fmt.Sprintf("gei foreign wrapv %d", rng.Intn(len(sh.vkind))))
